@@ -654,6 +654,10 @@ class Interp:
                 raise Raised("ValueError", node)
             except KeyError:
                 raise Raised("KeyError", node)
+            except IndexError:
+                raise Raised("IndexError", node)
+            except StopIteration:
+                raise Raised("StopIteration", node)
             except ZeroDivisionError:
                 raise Raised("ZeroDivisionError", node)
         if isinstance(f, ClassRef):
